@@ -46,19 +46,16 @@ Definition post_setattr (d : desc) (w : pv) : post :=
   | DMap _ | DPrefixMap _ =>
       match mapped_of d w with Some x => PostSet x | None => PostRaise EOtherError end
   | DCompound ds =>
-      (* TraitCompound._post_setattr: the first handler that has a post_setattr is tried; Map.post_setattr /
-         PrefixMap.post_setattr raise KeyError (not TraitError) for a value that is not a key, so the loop
-         never reaches a second handler nor the final setattr(object, name + "_", value) *)
-      (fix go (l : list desc) : post :=
-         match l with
-         | [] => NoPost
-         | a :: r => if is_mapped a
-                     then match mapped_of a w with
-                          | Some x => PostSet x
-                          | None => PostRaise (if hashable w then EOtherError else ETypeError)
-                          end
-                     else go r
-         end) ds
+      (* TraitCompound._post_setattr (trait_handlers.py:728): the handlers that have a post_setattr are tried in turn;
+         Map.post_setattr / PrefixMap.post_setattr raise TraitError("Unmappable") for a value that is not one of their
+         keys (repaired F19), which moves on to the next one; when none maps: setattr(object, name + "_", value) *)
+      if existsb is_mapped ds then
+        PostSet ((fix go (l : list desc) : pv :=
+                    match l with
+                    | [] => w
+                    | a :: r => if is_mapped a then match mapped_of a w with Some x => x | None => go r end else go r
+                    end) ds)
+      else NoPost
   | _ => NoPost
   end.
 
@@ -115,15 +112,13 @@ Definition dyn_enum (coll : option pv) (v : pv) : vres :=
   | Some (PList items) => if py_in v items then Accept v else Reject      (* safe_contains(value, xgetattr(object, name)) *)
   | _ => Reject
   end.
-(* what READING it yields: the cached value (else the default) if it is a member of the collection AS IT IS NOW,
+(* what READING it yields: the cached value (else the default, Undefined) if it is a member of the collection AS IT IS NOW,
    otherwise the first member (None for an empty collection) *)
 Definition dyn_enum_readable (c : cls) (s : inst) (n src : Z) : option pv :=
   match read c s src with
   | Some (PList items) =>
-      match read c s n with
-      | Some v0 => Some (if py_in v0 items then v0 else match items with x :: _ => x | [] => PNone end)
-      | None => None
-      end
+      let v0 := match get s n with Some w => w | None => PUndefined end in   (* the default of Enum(values=..) is Undefined *)
+      Some (if py_in v0 items then v0 else match items with x :: _ => x | [] => PNone end)
   | _ => None
   end.
 
